@@ -154,7 +154,15 @@ def map_iter_order(eng, m):
         try:
             idx.sort(key=lambda i: sort_key(m.entries[i][0]))
         except Unmodelled:
-            raise
+            # symbolic keys: insertion sort with forked comparisons
+            order = []
+            for i in idx:
+                pos = len(order)
+                for j in range(len(order)):
+                    if eng.decide(eng.key_lt(eng, m.entries[i][0], m.entries[order[j]][0])):
+                        pos = j; break
+                order.insert(pos, i)
+            return order
         return idx
     if eng.map_order == "all" and len(idx) > 1:
         perms = list(itertools.permutations(idx))
@@ -447,7 +455,9 @@ def collect(eng, it, target):
     items = drain(eng, it)
     if base in ("Vec", "_", "VecDeque") or t.startswith("Vec<"):
         return VecM(items)
-    if base in ("HashMap", "BTreeMap", "Metadata", "KeyValuePairs", "NonEmptyKeyValuePairs"):
+    if base in ("KeyValuePairs", "NonEmptyKeyValuePairs"):
+        return Agg(base, "Def", 0, [VecM(items)])
+    if base in ("HashMap", "BTreeMap", "Metadata"):
         m = MapM("BTreeMap" if base != "HashMap" else "HashMap")
         for kv in items:
             kv = deref(kv)
@@ -1189,8 +1199,14 @@ def register(eng):
     def key_lt(eng, a, b):
         """strict lexicographic < over ints / tuples / byte vectors (symbolic allowed)"""
         a, b = deref(a), deref(b)
+        if isinstance(a, BoxV):
+            a = deref(a.v)
+        if isinstance(b, BoxV):
+            b = deref(b.v)
         if isinstance(a, Agg) and a.ty == "Hash":
             a, b = a.fields[0], b.fields[0]
+        if isinstance(a, Agg) and isinstance(b, Agg) and a.vidx != b.vidx:
+            return a.vidx < b.vidx
         if isinstance(a, (VecM, SliceV)):
             xs, ys = a.items, b.items
         elif isinstance(a, Agg):
@@ -1198,10 +1214,15 @@ def register(eng):
         elif isinstance(a, StrM):
             xs, ys = a.bytes, b.bytes
         else:
+            if isinstance(a, bool) or isinstance(b, bool) or (is_sym(a) and z3.is_bool(a)):
+                return b_and(b_not(a), b)
             if isinstance(a, int) and isinstance(b, int):
                 return a < b
             w = a.size() if is_sym(a) else b.size()
-            return z3.ULT(eng.to_bv(a, w), eng.to_bv(b, w))
+            # bytes compare unsigned; wider symbolic integers are the IR's signed i128 / i64
+            if w == 8:
+                return z3.ULT(eng.to_bv(a, w), eng.to_bv(b, w))
+            return eng.to_bv(a, w) < eng.to_bv(b, w)
         res = len(xs) < len(ys)
         for x, y in reversed(list(zip(xs, ys))):
             lt = key_lt(eng, x, y)
